@@ -150,6 +150,44 @@ def gen_loop(rng, m=None, N=None, kind=None, exit_node=None, wait_sync=False, ac
             "loop": {"m": m, "N": N, "kind": kind, "exit": exit_node, "wait_sync": wait_sync, "accum": accum}}
 
 
+def gen_cycle(rng):
+    """Ungated multi-node cycles with several possible entry points (values saturate so the run converges)."""
+    k = rng.randint(2, 4)
+    names = [f"c{j}" for j in range(k)]
+    vals = [f"w{j}" for j in range(k)]
+    nodes = []
+    for j in range(k):
+        ins = [vals[(j - 1) % k]]
+        if rng.random() < 0.4:
+            ins.append(f"x{j}")
+        if rng.random() < 0.3 and k > 2:
+            ins.append(vals[(j - 2) % k])
+        nodes.append({"name": names[j], "kind": "func", "inputs": list(dict.fromkeys(ins)), "outputs": [vals[j]], "emit": [], "wait_for": [],
+                      "defaults": {}, "fn": ["const", j]})
+    if rng.random() < 0.5:
+        nodes.append({"name": "tail", "kind": "func", "inputs": [vals[0]], "outputs": ["t"], "emit": [], "wait_for": [], "defaults": {}, "fn": ["sym", "tail"]})
+    rng.shuffle(nodes)
+    return {"nodes": nodes, "bound": {}, "entrypoints": None, "selected": None, "ext": [], "int_valued": []}
+
+
+def gen_two_cycles(rng):
+    """Two independent data cycles (self-accumulating nodes) tied together only by one gate's control edges."""
+    k = rng.randint(2, 3)
+    nodes = []
+    targets = []
+    for j in range(k):
+        ins = [f"acc{j}"] + ([f"acc{j - 1}"] if j > 0 and rng.random() < 0.6 else []) + (["seed"] if rng.random() < 0.3 else [])
+        nodes.append({"name": f"loop{j}", "kind": "func", "inputs": ins, "outputs": [f"acc{j}"], "emit": [], "wait_for": [], "defaults": {},
+                      "fn": ["const", j]})
+        targets.append(f"loop{j}")
+    tbl = [[0, rng.choice(targets)], [1, "END"]]
+    gate_ins = [f"acc{j}" for j in range(k)] if rng.random() < 0.7 else ["ctl"]
+    nodes.append({"name": "gate", "kind": "route", "inputs": gate_ins, "outputs": [], "emit": [], "wait_for": [], "defaults": {},
+                  "fn": ["gtable", tbl, "END"], "targets": targets + ["END"], "multi": False, "fallback": None, "default_open": rng.random() < 0.5})
+    rng.shuffle(nodes)
+    return {"nodes": nodes, "bound": {}, "entrypoints": None, "selected": None, "ext": ["ctl"], "int_valued": ["ctl"]}
+
+
 def complete_inputs(rng, g, required, optional, provide_optional=0.5):
     """Run-time inputs: every required name, optional ones with some probability."""
     vals = {}
@@ -194,4 +232,8 @@ def gen_program(rng, family=None):
         return gen_loop(rng, wait_sync=True), family
     if family == "emit":
         return gen_dag(rng, max_nodes=6, emits=0.5), family
+    if family == "cyc":
+        return gen_cycle(rng), family
+    if family == "twocyc":
+        return gen_two_cycles(rng), family
     raise ValueError(family)
